@@ -37,7 +37,8 @@ RULE = ("cases = the generators of C01-C08, C10, C15 themselves (imported, not c
         "generator, sub-sampled per owner with every corpus/edge case kept and a bias to the smallest and the largest "
         "inputs) plus a C19 class of extreme shapes (1x1, single row/column, objects touching all four borders, empty label "
         "sets, > 1000 initial queue rows / queue growth past 1000 rows for propagate, maximally sparse assignment problems, "
-        "length-1 strided histograms); every case is run through the owner's impl with the kernel spy installed (recorded "
+        "length-1 strided histograms, integer- and float-typed 0/1 footprints for grey_reconstruction, one leak-observation "
+        "case); every case is run through the owner's impl with the kernel spy installed (recorded "
         "calls -> extracted kernel_pre_K) and - a sub-sample in the quick tier, all of them in the thorough tier - against "
         "the address-sanitised build; non-trivial = at least one compiled kernel was entered; distinct by hash of the case")
 TRUSTED = [
@@ -46,7 +47,13 @@ TRUSTED = [
     "the spy (harness/props/c19.py:_install_spies) replaces names in the importing modules' namespaces and in the "
     "extension modules' own dictionaries; it reads shapes/strides/values of the arguments before forwarding them unchanged",
     "grey_reconstruction_loop: the padding geometry (image shape, padding) is read from the caller's frame locals",
-    "AddressSanitizer (gcc libasan) with detect_leaks=0: leaks are not observed; allocation pairing is a model fact",
+    "AddressSanitizer (gcc libasan) with detect_leaks=0 (CPython itself 'leaks'); leaks are OBSERVED separately, not "
+    "proved: every kernel class is called 2000 times (skeletonize 133) in one process against the plain build and the "
+    "growth of glibc's mallinfo2 bytes-in-use must stay below 8 bytes per call (unchanged tree: 0-300 bytes in total); "
+    "allocation pairing of heap.pxd is additionally a model fact (C19_heap_safe)",
+    "convex_hull_ijv: kernel_pre_hull is the overflow flag of C02's executable model evaluated on the recorded call "
+    "(per-instance discharge until C02's general no_overflow exists); index lists are repeat-free (C02's domain)",
+    "augmenting_row_reduction model: float comparisons are an oracle restricted to what finite costs can produce",
 ]
 ASSUMPTIONS = [
     "quantifier = the input domains of C01-C08, C10, C15 (their generators); grey_reconstruction with an explicit "
@@ -1031,8 +1038,9 @@ MANIFEST = {
                    "every recorded kernel call; the behaviour of the compiled object is observed (address-sanitised "
                    "build over the generators of C01-C08, C10, C15), not proved"),
     "level_note": ("not expressible in the model: malloc/realloc failure, int32 wrap of flat indices beyond 2^31 "
-                   "elements, in-bounds reads of uninitialised locals (augmenting_row_reduction j1/j2), the C++ "
-                   "containers of FastEMD, Cython buffer unpacking, leaks (detect_leaks=0)"),
+                   "elements, the C++ containers of FastEMD, Cython buffer unpacking; not proved: augment's main loop "
+                   "(needs an augmenting path + mark invariants), the hull write bound in general (C02 no_overflow); "
+                   "leaks are observed by repeated calls (mallinfo2 growth), not proved"),
     "technique": "Coq index-safety theorems + run-time boundary monitoring with extracted checkers + ASan search",
     "design_ref": "DESIGN.md section 7, C19; section 8",
 }
